@@ -17,6 +17,24 @@ CHECKS = {
              "plan/decision/rewrites digests and receipt digest must be bit-identical. Several id salts explore several canonical key orders.",
         note="Bounded model (pre-states, candidate universe, sequence length); table-driven rules (harness/src/programs.rs) mirror spec/Tick.tla Prog; scope-hash order supplied by the harness; batch sizes beyond the 1024 threshold are covered by the C03 drain-order traces.",
         design="3 C01"),
+    "C02": dict(
+        technique="TLC model checking of ParallelExec.tla/MC_C02.tla (all Claim/Exec interleavings of W workers over (warp, shard) units) + spec->impl replay of every claim script into the real execute_work_queue via the claim hook + trace validation of real racing threads (ParallelExecTrace.tla) + policy matrix",
+        text="TLC explores every interleaving of worker Claim/Exec steps over the shared claim counter (hence every unit-to-worker assignment and per-worker order) for every candidate subset of "
+             "two multi-instance pre-states and proves claims partition the units and the merged ops / post-state equal the serial ones. Every distinct final (scenario, claim script) is scripted "
+             "into the real work queue through Engine::commit_with_receipt with workers(n): the recorded claim log must equal the script, the post-state the model's, the patch must replay, and all "
+             "scripts and worker counts of one (pre-state, candidate set) must give bit-identical hashes. Real racing threads (1..32 workers, up to ~2100 units, 3 instances) are validated from "
+             "per-worker claim logs by a trace spec, and the five execution policies x 1..8 workers are compared with execute_serial by canonical patch digest.",
+        note="Bounded scenarios for the exhaustive leg; claim hook (cfg echo_verif) substitutes scripted unit indices for counter draws and records claims; worker index = spawn order.",
+        design="3 C02"),
+    "C14": dict(
+        technique="TLC model checking of ParallelExec.tla/MC_C02.tla with fault-injecting and under-declaring programs (every access kind, every op kind, every worker schedule) + scripted replay into the real enforced work queue + model/real comparison of op write-target attribution (MC_C14attr.tla, Graph.tla Touched/Attributed)",
+        text="The ParallelExec model is run with violators (one undeclared node/adjacency/attachment/edge read, one undeclared write per op kind, cross-instance emission, instance-level ops, a plain "
+             "panic, or a declaration missing one footprint class) placed among honest rewrites under every worker schedule; invariants: an accepted violator always poisons the tick and nothing "
+             "becomes visible, honest rewrites are never flagged. Every (scenario, script) is replayed into the real enforced engine: the commit must fail with Engine::state() unchanged exactly when "
+             "the model says so, and the violation kind is compared. The attribution sentence is decided by exporting, for every state and op, the locations whose observable content changes but "
+             "are not attributed (model) and recomputing them on the real store with the real op_write_targets.",
+        note="Enforcement compiled in (debug-assertions harness build); executor reads performed unconditionally in a fixed order; findings F3/F5 are listed in known_findings.json and printed as KNOWN-FINDING.",
+        design="3 C14"),
     "C03": dict(
         technique="TLC model checking of Footprint.tla/Scheduler.tla/MC_C03.tla (all footprint-class tuples, Radix and Legacy in lock-step vs declarative greedy oracle) + spec->impl replay through the raw scheduler hook + trace validation of drain order (SchedulerTrace.tla)",
         text="TLC enumerates every pair (512^2 in thorough), triple and quadruple of footprint classes and proves on the model that the transcribed Radix and Legacy reserve "
